@@ -245,6 +245,16 @@ def gen_cif(rng, exotic=False):
                     re_ = dec(rng, -1, 1, 4)
             else:
                 re0, im0 = dec(rng, -2, 2, 4), dec(rng, 0, 5, 4)
+                # exact zeros: the dispersion corrections of the light elements are tabulated as 0.0000 0.0000 (a stated zero is a value)
+                u = rng.random()
+                if u < 0.15:
+                    re0 = im0 = rng.choice(['0.0000', '0.0', '0', '-0.0000'])
+                    if re0.startswith('-'):
+                        im0 = '0.0000'
+                elif u < 0.22:
+                    re0 = '0.0000'
+                elif u < 0.29:
+                    im0 = '0.0000'
                 re_, im_ = esd(rng, re0, p_esd), esd(rng, im0, p_esd)
                 val = [re0, im0]
             rows.append((t, re_, im_))
